@@ -352,7 +352,9 @@ class InferReferenceColumn(InferenceTip):
   @classmethod
   def infer(cls, node, context=None):
     table_id = node.args[0].value
-    table_class = next(node.root().igetattr(table_id), None)
+    # The name may also be bound to something else in the module (`from functions import *` brings
+    # in e.g. T() and N()); only the user table of that name is what the column refers to.
+    table_class = next((c for c in node.root().igetattr(table_id) if _is_table(c)), None)
     if table_class:
       yield astroid.bases.Instance(table_class)
 
